@@ -40,3 +40,725 @@ Definition orders_ok : bool :=
     has_release o_cd && has_acquire o_cd
   | _, _, _, _, _, _, _ => false
   end.
+
+(* ======================================================================================== *)
+(* Proofs                                                                                   *)
+(* ======================================================================================== *)
+From Coq Require Import ZifyBool Arith PeanoNat.
+
+(* ---- the generated formulas, restated (each proof breaks if the C++ expression changes) ---- *)
+Lemma wake_needed_spec : forall n, wake_needed n = true <-> 0 < n.
+Proof. intro n. unfold wake_needed. rewrite Z.gtb_lt. reflexivity. Qed.
+Lemma wait_for_clamp_spec : forall t, wait_for_clamp t = Z.max 0 t.
+Proof. reflexivity. Qed.
+Lemma timed_out_spec : forall x, timed_out x = true <-> x <= 0.
+Proof. intro x. unfold timed_out. apply Z.leb_le. Qed.
+Lemma remaining_spec : forall u n, remaining u n = u - n.
+Proof. reflexivity. Qed.
+Lemma latch_fires_spec : forall c, latch_fires c = true <-> c = 0.
+Proof. intro c. unfold latch_fires. apply Z.eqb_eq. Qed.
+
+(* ---- lists ---- *)
+Lemma nth_error_set_nth_eq : forall A (l : list A) t x y, nth_error l t = Some y -> nth_error (set_nth t x l) t = Some x.
+Proof. induction l as [|a l IH]; intros [|t] x y H; cbn in *; try discriminate; eauto. Qed.
+Lemma nth_error_set_nth_neq : forall A (l : list A) t t' x, t' <> t -> nth_error (set_nth t x l) t' = nth_error l t'.
+Proof. induction l as [|a l IH]; intros [|t] [|t'] x H; cbn in *; try reflexivity; try congruence. apply IH. congruence. Qed.
+Lemma Forall_set_nth : forall A (P : A -> Prop) l t x, Forall P l -> P x -> Forall P (set_nth t x l).
+Proof. induction l as [|a l IH]; intros [|t] x Hl Hx; cbn; inversion Hl; subst; auto. Qed.
+Lemma map_set_nth : forall A B (f : A -> B) l t x y, nth_error l t = Some y -> f x = f y -> map f (set_nth t x l) = map f l.
+Proof. induction l as [|a l IH]; intros [|t] x y H E; cbn in *; try discriminate; [congruence|]. f_equal. eauto. Qed.
+Lemma In_set_nth : forall A (l : list A) t x y, In y (set_nth t x l) -> y = x \/ In y l.
+Proof. induction l as [|a l IH]; intros [|t] x y H; cbn in *; try tauto; destruct H as [H|H]; auto. apply IH in H. tauto. Qed.
+Lemma In_skipn : forall A n (l : list A) x, In x (skipn n l) -> In x l.
+Proof. induction n as [|n IH]; intros [|a l] x H; cbn in *; auto. Qed.
+Lemma skipn_cur : forall A i (l : list A),
+  skipn i l = match nth_error l i with Some x => x :: skipn (S i) l | None => skipn (S i) l end.
+Proof. induction i as [|i IH]; intros [|a l]; cbn; try reflexivity. rewrite IH. destruct l; reflexivity || (destruct (nth_error _ i); reflexivity). Qed.
+
+(* ---- sums over the thread list ---- *)
+Definition b2z (b : bool) : Z := if b then 1 else 0.
+Fixpoint tsum (f : thread -> Z) (l : list thread) : Z := match l with [] => 0 | x :: r => f x + tsum f r end.
+
+Lemma tsum_set_nth : forall f l t th th', nth_error l t = Some th -> tsum f (set_nth t th' l) = tsum f l - f th + f th'.
+Proof. induction l as [|a l IH]; intros [|t] th th' H; cbn in *; try discriminate. - injection H as <-. lia. - rewrite (IH _ _ th' H). lia. Qed.
+Lemma tsum_map : forall f g, (forall th, f (g th) = f th) -> forall l, tsum f (map g l) = tsum f l.
+Proof. intros f g H; induction l as [|a l IH]; cbn; [reflexivity | rewrite H, IH; reflexivity]. Qed.
+Lemma tsum_nonneg_in : forall f l, (forall th, In th l -> 0 <= f th) -> 0 <= tsum f l.
+Proof. induction l as [|a l IH]; intros H; cbn; [lia|]. assert (0 <= f a) by (apply H; left; reflexivity). assert (0 <= tsum f l) by (apply IH; intros; apply H; right; assumption). lia. Qed.
+Lemma tsum_ge_in : forall f l, (forall th, In th l -> 0 <= f th) -> forall th, In th l -> f th <= tsum f l.
+Proof.
+  induction l as [|a l IH]; intros H th Hin; cbn; [destruct Hin|].
+  assert (0 <= f a) by (apply H; left; reflexivity).
+  assert (0 <= tsum f l) by (apply tsum_nonneg_in; intros; apply H; right; assumption).
+  destruct Hin as [->|Hin]; [lia|]. assert (f th <= tsum f l) by (apply IH; [intros; apply H; right; assumption | assumption]). lia.
+Qed.
+Lemma tsum_le : forall f g l, (forall th, In th l -> f th <= g th) -> tsum f l <= tsum g l.
+Proof. induction l as [|a l IH]; intros H; cbn; [lia|]. assert (f a <= g a) by (apply H; left; reflexivity). assert (tsum f l <= tsum g l) by (apply IH; intros; apply H; right; assumption). lia. Qed.
+Lemma tsum_zero : forall f l, (forall th, In th l -> f th = 0) -> tsum f l = 0.
+Proof. induction l as [|a l IH]; intros H; cbn; [reflexivity|]. rewrite (H a), IH; [reflexivity | intros; apply H; right; assumption | left; reflexivity]. Qed.
+
+(* ---- case analysis of one step ---- *)
+Ltac split_ifs H :=
+  repeat match type of H with
+  | context [if ?c then _ else _] => destruct c eqn:?
+  | context [match hd ?s with HList _ => _ | HSealed => _ end] => destruct (hd s) eqn:?
+  end.
+
+Ltac step_cases H :=
+  unfold step in H;
+  match type of H with context [nth_error (threads ?s) ?t] =>
+    let th := fresh "th" in let Hth := fresh "Hth" in
+    destruct (nth_error (threads s) t) as [th|] eqn:Hth;
+    [ unfold step_thread' in H;
+      let Hpc := fresh "Hpc" in let Hop := fresh "Hop" in
+      destruct (tpc th) eqn:Hpc;
+      [ let o := fresh "o" in destruct (nth_error (prog th) (opi th)) as [o|] eqn:Hop; [destruct o|];
+        unfold step_thread in H; rewrite ?Hpc, ?Hop in H
+      | unfold step_thread in H; rewrite Hpc in H .. ];
+      cbv zeta in H; cbn [fst snd] in H; split_ifs H; try discriminate H; injection H as <-
+    | destruct (Nat.eqb t (length (threads s))) eqn:?; [injection H as <- | discriminate H] ]
+  end.
+
+Ltac proj :=
+  cbn [threads hd fready fcnt count clock vset ran registered early upd_thread with_shared run_cbs wake_all begin_set
+       prog opi tpc results wstart wtmo goto finish_op].
+Ltac proj_in H :=
+  cbn [threads hd fready fcnt count clock vset ran registered early upd_thread with_shared run_cbs wake_all begin_set
+       prog opi tpc results wstart wtmo goto finish_op] in H.
+
+(* ---- theorems that need no invariant ---- *)
+Ltac split_goal_ifs :=
+  repeat match goal with
+  | |- context [if ?c then _ else _] => destruct c
+  | |- context [match hd ?s with HList _ => _ | HSealed => _ end] => destruct (hd s)
+  end.
+
+Lemma fu_unparked_enabled : forall latch progs s t th, wf latch progs -> Reach latch progs s ->
+  nth_error (threads s) t = Some th -> thread_done th = false -> parked th = false -> step s t <> None.
+Proof.
+  intros latch progs s t th _ _ Hth Hd Hp. unfold step. rewrite Hth. unfold step_thread', thread_done, parked in *.
+  destruct (tpc th) eqn:Hpc; try discriminate Hp.
+  1: { destruct (nth_error (prog th) (opi th)) as [o|] eqn:Hop; [|discriminate Hd].
+       destruct o; unfold step_thread; rewrite ?Hpc, ?Hop; cbv zeta; split_goal_ifs; discriminate. }
+  all: unfold step_thread; rewrite Hpc; cbv zeta; split_goal_ifs; discriminate.
+Qed.
+
+Lemma fu_timed_released : forall latch progs s t th u d, wf latch progs -> Reach latch progs s ->
+  nth_error (threads s) t = Some th -> tpc th = WaitBlocked u d -> d <= clock s -> step s t <> None.
+Proof.
+  intros latch progs s t th u d _ _ Hth Hpc Hd. unfold step. rewrite Hth. unfold step_thread'. rewrite Hpc.
+  unfold step_thread. rewrite Hpc. apply Z.leb_le in Hd. rewrite Hd. discriminate.
+Qed.
+
+Lemma fu_orders_ok : orders_ok = true.
+Proof. vm_compute. reflexivity. Qed.
+
+Lemma fu_ready_mask : READY_MASK = 2 ^ 31.
+Proof. vm_compute. reflexivity. Qed.
+
+Lemma fu_wf_example : wf 0 [[OSet]; [OGet; OFin]; [OWait 2]].
+Proof. left. cbn. repeat split; auto. Qed.
+
+Lemma fu_reach_example :
+  exists s, Reach 0 [[OSet]; [OGet; OFin]; [OWait 2]] s /\
+            existsb parked (threads s) = true /\ existsb wake_pending (threads s) = true.
+Proof.
+  eexists. split; [exists [1; 1; 1; 0]%nat; reflexivity|]. vm_compute. split; reflexivity.
+Qed.
+
+(* ======================================================================================== *)
+(* The invariant                                                                            *)
+(* ======================================================================================== *)
+Definition in_futex (th : thread) : bool := match tpc th with SetFutex _ => true | _ => false end.
+Definition post (th : thread) : bool :=
+  match tpc th with
+  | GetWait _ | GetBlocked | GetReload | WaitWait _ _ _ | WaitBlocked _ _ | WaitReload _ | WaitClock2 _ _ => true
+  | _ => false
+  end.
+Definition m_futex th := b2z (in_futex th).
+Definition m_setting th := b2z (setting th).
+Definition m_pend th := b2z (wake_pending th).
+Definition m_park th := b2z (parked th).
+Definition m_post th := b2z (post th).
+(* callbacks detached by a setter *)
+Definition slist (th : thread) : list cbid :=
+  match tpc th with SetFutex l | SetWake l | SetRun l => l | _ => [] end.
+(* operations not yet begun (the set_value / firing count_down in progress counts as begun) *)
+Definition unstarted (th : thread) : list op :=
+  if setting th then skipn (S (opi th)) (prog th) else skipn (opi th) (prog th).
+Definition sumz (l : list Z) : Z := fold_right Z.add 0 l.
+Definition m_set th := Z.of_nat (length (filter is_set (unstarted th))).
+Definition m_down th := sumz (map down_amount (unstarted th)).
+
+Definition res_ok (r : res) : Prop :=
+  match r with
+  | RGet b => b = true
+  | RWait true _ _ _ rdy => rdy = true
+  | RWait false tmo a b _ => tmo <= b - a
+  | _ => True
+  end.
+Definition not_fin (th : thread) : Prop := nth_error (prog th) (opi th) <> Some OFin.
+Definition bound (th : thread) (u : Z) : Prop := wstart th + wait_for_clamp (wtmo th) <= u.
+Definition pc_loc (fr : bool) (clk : Z) (th : thread) : Prop :=
+  match tpc th with
+  | Idle | FinCas _ => True
+  | SetFutex _ | SetWake _ | SetRun _ | GetAdd | GetBlocked | GetReload => not_fin th
+  | GetWait v => not_fin th /\ fst v = false
+  | WaitClock tmo => not_fin th /\ tmo = wait_for_clamp (wtmo th) /\ wstart th <= clk
+  | WaitAdd u _ | WaitBlocked u _ | WaitReload u => not_fin th /\ bound th u
+  | WaitWait u _ v => not_fin th /\ bound th u /\ fst v = false
+  | WaitClock2 u v => not_fin th /\ bound th u /\ (fst v = true -> fr = true)
+  end.
+Definition Loc (fr : bool) (clk : Z) (th : thread) : Prop := Forall res_ok (results th) /\ pc_loc fr clk th.
+
+Definition cb_dec : forall a b : cbid, {a = b} + {a <> b}.
+Proof. decide equality; apply Nat.eq_dec. Defined.
+Definition cnt (id : cbid) (l : list cbid) : Z := Z.of_nat (count_occ cb_dec l id).
+Definition hlist (s : st) : list cbid := match hd s with HList l => l | HSealed => [] end.
+Definition m_cb (id : cbid) (th : thread) : Z := cnt id (slist th).
+Definition cbcount (id : cbid) (s : st) : Z := cnt id (ran s) + cnt id (hlist s) + tsum (m_cb id) (threads s).
+
+Definition cb_inv (s : st) : Prop := forall id,
+  cbcount id s <= 1 /\
+  (1 <= cbcount id s -> exists th, nth_error (threads s) (fst id) = Some th /\ (snd id < opi th)%nat) /\
+  (forall th, nth_error (threads s) (fst id) = Some th -> (snd id < opi th)%nat ->
+              nth_error (prog th) (snd id) = Some OFin -> 1 <= cbcount id s).
+
+Record Inv (latch : Z) (progs : list (list op)) (s : st) : Prop := {
+  i_progs : map prog (threads s) = progs;
+  i_loc : Forall (Loc (fready s) (clock s)) (threads s);
+  i_futex : tsum m_futex (threads s) + b2z (fready s) <= b2z (vset s);
+  i_setting : vset s = false -> tsum m_setting (threads s) = 0;
+  i_sealed : vset s = true <-> hd s = HSealed;
+  i_early : early s = false;
+  i_park : 0 < tsum m_park (threads s) -> fready s = false \/ 0 < tsum m_pend (threads s);
+  i_post : fready s = false -> tsum m_post (threads s) <= fcnt s;
+  i_cb : cb_inv s;
+  i_plain : latch = 0 -> tsum m_set (threads s) + b2z (vset s) <= 1;
+  i_latch : 0 < latch -> tsum m_down (threads s) <= count s /\ (vset s = true <-> count s = 0)
+}.
+
+(* ---- basic facts about the measures ---- *)
+Lemma b2z_range : forall b, 0 <= b2z b <= 1.
+Proof. destruct b; cbn; lia. Qed.
+Lemma cnt_nonneg : forall id l, 0 <= cnt id l.
+Proof. intros; unfold cnt; lia. Qed.
+Lemma cnt_nil : forall id, cnt id [] = 0.
+Proof. reflexivity. Qed.
+Lemma cnt_app : forall id a b, cnt id (a ++ b) = cnt id a + cnt id b.
+Proof. intros; unfold cnt. rewrite count_occ_app. lia. Qed.
+Lemma cnt_cons : forall id x l, cnt id (x :: l) = (if cb_dec x id then 1 else 0) + cnt id l.
+Proof. intros; unfold cnt. cbn [count_occ]. destruct (cb_dec x id); lia. Qed.
+Lemma cnt_one : forall id x, cnt id [x] = if cb_dec x id then 1 else 0.
+Proof. intros. rewrite cnt_cons, cnt_nil. lia. Qed.
+Lemma cnt_in : forall id l, 1 <= cnt id l -> In id l.
+Proof. intros id l H. unfold cnt in H. apply (count_occ_In cb_dec). lia. Qed.
+Lemma cnt_nodup : forall l, (forall id, cnt id l <= 1) -> NoDup l.
+Proof. intros l H. apply (NoDup_count_occ cb_dec). intro x. specialize (H x). unfold cnt in H. lia. Qed.
+
+Lemma sumz_cons : forall x l, sumz (x :: l) = x + sumz l.
+Proof. reflexivity. Qed.
+Lemma sumz_app : forall a b, sumz (a ++ b) = sumz a + sumz b.
+Proof. induction a as [|x a IH]; intro b; cbn [app]; rewrite ?sumz_cons; [reflexivity | rewrite IH; lia]. Qed.
+Lemma sumz_nonneg : forall l, (forall x, In x l -> 0 <= x) -> 0 <= sumz l.
+Proof. induction l as [|x l IH]; intros H; rewrite ?sumz_cons; [cbn; lia|]. assert (0 <= x) by (apply H; left; reflexivity). assert (0 <= sumz l) by (apply IH; intros; apply H; right; assumption). lia. Qed.
+
+(* ---- the initial state ---- *)
+Lemma tsum_init_zero : forall f progs, (forall p, f (mk_thread p) = 0) -> tsum f (map mk_thread progs) = 0.
+Proof. intros f progs H. apply tsum_zero. intros th Hin. apply in_map_iff in Hin. destruct Hin as [p [<- _]]. apply H. Qed.
+Lemma tsum_init_set : forall progs, tsum m_set (map mk_thread progs) = Z.of_nat (length (filter is_set (all_ops progs))).
+Proof.
+  unfold all_ops. induction progs as [|p r IH]; cbn [map tsum concat]; [reflexivity|].
+  rewrite IH, filter_app, app_length. change (m_set (mk_thread p)) with (Z.of_nat (length (filter is_set p))). lia.
+Qed.
+Lemma tsum_init_down : forall progs, tsum m_down (map mk_thread progs) = sumz (map down_amount (all_ops progs)).
+Proof.
+  unfold all_ops. induction progs as [|p r IH]; cbn [map tsum concat]; [reflexivity|].
+  rewrite IH, map_app, sumz_app. change (m_down (mk_thread p)) with (sumz (map down_amount p)). lia.
+Qed.
+
+Lemma inv_init : forall latch progs, wf latch progs -> Inv latch progs (init latch progs).
+Proof.
+  intros latch progs Hwf. constructor; cbn [init threads fready clock vset hd early fcnt count].
+  - rewrite map_map. cbn. apply map_id.
+  - apply Forall_forall. intros th Hin. apply in_map_iff in Hin. destruct Hin as [p [<- _]]. split; cbn; auto.
+  - rewrite tsum_init_zero by reflexivity. cbn. lia.
+  - intros _. apply tsum_init_zero. reflexivity.
+  - split; discriminate.
+  - reflexivity.
+  - rewrite tsum_init_zero by reflexivity. lia.
+  - intros _. rewrite tsum_init_zero by reflexivity. lia.
+  - intro id. unfold cbcount. cbn [init ran hlist hd threads]. rewrite tsum_init_zero by reflexivity. rewrite cnt_nil.
+    split; [lia|]. split; [lia|]. intros th Hth Hlt. rewrite nth_error_map in Hth.
+    destruct (nth_error progs (fst id)); [|discriminate]. injection Hth as <-. cbn in Hlt. lia.
+  - intros ->. rewrite tsum_init_set. cbn. destruct Hwf as [[_ [H _]]|[H _]]; lia.
+  - intros Hl. rewrite tsum_init_down. destruct Hwf as [[H _]|[_ [_ [_ H]]]]; [lia|]. unfold sumz. split; [exact H|]. split; [discriminate|lia].
+Qed.
+
+(* ---- wake_all ---- *)
+Lemma wake_thread_id : forall th, parked th = false -> wake_thread th = th.
+Proof. intros th H. unfold wake_thread, parked in *. destruct (tpc th); try reflexivity; discriminate. Qed.
+Lemma nth_error_wake : forall l t th, nth_error l t = Some th -> parked th = false -> nth_error (map wake_thread l) t = Some th.
+Proof. intros l t th H Hp. rewrite nth_error_map, H. cbn. rewrite wake_thread_id; auto. Qed.
+Lemma wake_prog : forall th, prog (wake_thread th) = prog th.
+Proof. intro th. unfold wake_thread. destruct (tpc th); reflexivity. Qed.
+Lemma wake_opi : forall th, opi (wake_thread th) = opi th.
+Proof. intro th. unfold wake_thread. destruct (tpc th); reflexivity. Qed.
+
+Lemma step_progs : forall s t s', step s t = Some s' -> map prog (threads s') = map prog (threads s).
+Proof.
+  intros s t s' H. step_cases H; proj; try reflexivity.
+  all: try (apply (map_set_nth _ _ prog _ _ _ _ Hth); reflexivity).
+  rewrite (map_set_nth _ _ prog _ _ _ th); [| apply nth_error_wake; [assumption | unfold parked; rewrite Hpc; reflexivity] | reflexivity].
+  rewrite map_map. apply map_ext. apply wake_prog.
+Qed.
+
+Lemma Loc_mono : forall fr clk fr' clk' th, (fr = true -> fr' = true) -> clk <= clk' -> Loc fr clk th -> Loc fr' clk' th.
+Proof. intros fr clk fr' clk' th Hf Hc [Hr Hp]. split; [exact Hr|]. unfold pc_loc in *. destruct (tpc th); intuition lia. Qed.
+Lemma Loc_wake : forall fr clk th, Loc fr clk th -> Loc fr clk (wake_thread th).
+Proof.
+  intros fr clk th [Hr Hp]. unfold wake_thread. unfold pc_loc in Hp. destruct (tpc th) eqn:E; try (split; [exact Hr | unfold pc_loc; rewrite E; exact Hp]).
+  all: split; [exact Hr | unfold pc_loc; proj; exact Hp].
+Qed.
+
+Lemma tsum_b2z_nonneg : forall g l, 0 <= tsum (fun th => b2z (g th)) l.
+Proof. intros. apply tsum_nonneg_in. intros. apply b2z_range. Qed.
+
+Lemma fready_vset : forall latch progs s, Inv latch progs s -> fready s = true -> vset s = true.
+Proof.
+  intros latch progs s HI H. pose proof (i_futex _ _ _ HI) as Hf. pose proof (tsum_b2z_nonneg in_futex (threads s)) as Hn.
+  unfold m_futex in Hf. rewrite H in Hf. destruct (vset s); [reflexivity|]. cbn in Hf. lia.
+Qed.
+
+Lemma step_loc : forall latch progs s t s', Inv latch progs s -> step s t = Some s' ->
+  Forall (Loc (fready s') (clock s')) (threads s').
+Proof.
+  intros latch progs s t s' HI H. pose proof (i_loc _ _ _ HI) as HL. pose proof (fready_vset _ _ _ HI) as Hfv.
+  step_cases H; proj.
+  35: { eapply Forall_impl; [|exact HL]. intros a. apply Loc_mono; [auto|lia]. }
+  all: pose proof (proj1 (Forall_forall _ _) HL _ (nth_error_In _ _ Hth)) as Hl.
+  all: destruct Hl as [Hr Hp]; unfold pc_loc in Hp; rewrite Hpc in Hp.
+  all: apply Forall_set_nth;
+    [ try (apply Forall_forall; intros a Ha; apply in_map_iff in Ha; destruct Ha as [a0 [<- Ha]]; apply Loc_wake; revert a0 Ha; apply Forall_forall);
+      (eapply Forall_impl; [|exact HL]; intros a; apply Loc_mono; [auto|lia])
+    | split; proj;
+      [ first [exact Hr | apply Forall_app; split; [exact Hr | constructor; [cbn [res_ok] | constructor]]]
+      | unfold pc_loc; proj; unfold not_fin, bound in *; proj ] ].
+  all: try exact I.
+  all: try solve [intuition (try lia; try congruence; auto)].
+  - destruct (nth_error (prog th) (opi th)) as [[]|]; exact I.
+  - match goal with Ht : timed_out _ = true |- _ => apply timed_out_spec in Ht; rewrite remaining_spec in Ht end.
+    unfold bound in Hp. rewrite wait_for_clamp_spec in Hp. lia.
+Qed.
+
+(* ---- static facts from wf: programs never change ---- *)
+Lemma prog_in_all : forall progs l th o, map prog l = progs -> In th l -> In o (prog th) -> In o (all_ops progs).
+Proof. intros progs l th o <- Hin Ho. unfold all_ops. apply in_concat. exists (prog th). split; [apply in_map; exact Hin | exact Ho]. Qed.
+Lemma wf_plain_no_down : forall latch progs o, wf latch progs -> latch = 0 -> In o (all_ops progs) -> is_down o = false.
+Proof.
+  intros latch progs o [[_ [_ H]]|[H _]] Hl Hin; [|lia]. destruct (is_down o) eqn:E; [|reflexivity].
+  assert (Hf : In o (filter is_down (all_ops progs))) by (apply filter_In; auto). rewrite H in Hf. destruct Hf.
+Qed.
+Lemma wf_latch_no_set : forall latch progs o, wf latch progs -> 0 < latch -> In o (all_ops progs) -> is_set o = false.
+Proof.
+  intros latch progs o [[H _]|[_ [H _]]] Hl Hin; [lia|]. destruct (is_set o) eqn:E; [|reflexivity].
+  assert (Hf : In o (filter is_set (all_ops progs))) by (apply filter_In; auto). rewrite H in Hf. destruct Hf.
+Qed.
+Lemma wf_latch_pos : forall latch progs o, wf latch progs -> 0 < latch -> In o (all_ops progs) -> is_down o = true -> 0 < down_amount o.
+Proof. intros latch progs o [[H _]|[_ [_ [H _]]]] Hl Hin; [lia|]. rewrite Forall_forall in H. apply H. exact Hin. Qed.
+Lemma wf_latch_nonneg : forall latch progs o, wf latch progs -> 0 < latch -> In o (all_ops progs) -> 0 <= down_amount o.
+Proof.
+  intros latch progs o Hwf Hl Hin. destruct (is_down o) eqn:E; [pose proof (wf_latch_pos _ _ _ Hwf Hl Hin E); lia|].
+  destruct o; cbn in *; try lia; discriminate.
+Qed.
+
+(* ---- unstarted operations ---- *)
+Lemma unstarted_incl : forall th o, In o (unstarted th) -> In o (prog th).
+Proof. intros th o. unfold unstarted. destruct (setting th); apply In_skipn. Qed.
+Lemma m_set_nonneg : forall th, 0 <= m_set th.
+Proof. intro; unfold m_set; lia. Qed.
+Lemma m_down_nonneg : forall th, (forall o, In o (prog th) -> 0 <= down_amount o) -> 0 <= m_down th.
+Proof.
+  intros th H. unfold m_down. apply sumz_nonneg. intros x Hx. apply in_map_iff in Hx. destruct Hx as [o [<- Ho]].
+  apply H. apply unstarted_incl. exact Ho.
+Qed.
+Lemma ustep_measures : forall th th' pre, unstarted th = pre ++ unstarted th' ->
+  m_set th = Z.of_nat (length (filter is_set pre)) + m_set th' /\ m_down th = sumz (map down_amount pre) + m_down th'.
+Proof. intros th th' pre H. unfold m_set, m_down. rewrite H, filter_app, app_length, map_app, sumz_app. lia. Qed.
+
+Lemma latch_down_nonneg : forall latch progs s, wf latch progs -> 0 < latch -> Inv latch progs s ->
+  forall th, In th (threads s) -> forall o, In o (prog th) -> 0 <= down_amount o.
+Proof.
+  intros latch progs s Hwf Hl HI th Hin o Ho. eapply wf_latch_nonneg; eauto. eapply prog_in_all; eauto. apply (i_progs _ _ _ HI).
+Qed.
+
+Lemma begin_oset : forall latch progs s t th, wf latch progs -> Inv latch progs s ->
+  nth_error (threads s) t = Some th -> tpc th = Idle -> nth_error (prog th) (opi th) = Some OSet ->
+  vset s = false /\ latch = 0.
+Proof.
+  intros latch progs s t th Hwf HI Hth Hpc Hop.
+  assert (Hin : In th (threads s)) by (eapply nth_error_In; eauto).
+  assert (Hall : In OSet (all_ops progs)) by (eapply prog_in_all; [apply (i_progs _ _ _ HI) | exact Hin | eapply nth_error_In; eauto]).
+  destruct (Z.eq_dec latch 0) as [Hl|Hl].
+  - split; [|exact Hl]. pose proof (i_plain _ _ _ HI Hl) as Hp.
+    assert (Hge : m_set th <= tsum m_set (threads s)) by (apply tsum_ge_in; [intros; apply m_set_nonneg | exact Hin]).
+    assert (1 <= m_set th).
+    { unfold m_set, unstarted, setting. rewrite Hpc. rewrite (skipn_cur _ (opi th)), Hop. cbn [filter is_set length]. lia. }
+    destruct (vset s); [cbn in Hp; lia | reflexivity].
+  - exfalso. assert (0 < latch) by (destruct Hwf as [[? _]|[? _]]; lia).
+    pose proof (wf_latch_no_set _ _ _ Hwf H Hall). discriminate.
+Qed.
+
+Lemma begin_odown : forall latch progs s t th d, wf latch progs -> Inv latch progs s ->
+  nth_error (threads s) t = Some th -> tpc th = Idle -> nth_error (prog th) (opi th) = Some (ODown d) ->
+  vset s = false /\ 0 < latch /\ 0 < d.
+Proof.
+  intros latch progs s t th d Hwf HI Hth Hpc Hop.
+  assert (Hin : In th (threads s)) by (eapply nth_error_In; eauto).
+  assert (Hall : In (ODown d) (all_ops progs)) by (eapply prog_in_all; [apply (i_progs _ _ _ HI) | exact Hin | eapply nth_error_In; eauto]).
+  destruct (Z.eq_dec latch 0) as [Hl|Hl].
+  - pose proof (wf_plain_no_down _ _ _ Hwf Hl Hall). discriminate.
+  - assert (Hlp : 0 < latch) by (destruct Hwf as [[? _]|[? _]]; lia).
+    pose proof (wf_latch_pos _ _ _ Hwf Hlp Hall eq_refl) as Hd. cbn in Hd.
+    split; [|split; assumption].
+    destruct (i_latch _ _ _ HI Hlp) as [Hsum Hiff].
+    pose proof (latch_down_nonneg _ _ _ Hwf Hlp HI) as Hnn.
+    assert (Hge : m_down th <= tsum m_down (threads s)) by (apply tsum_ge_in; [intros th0 Hth0; apply m_down_nonneg; apply Hnn; exact Hth0 | exact Hin]).
+    assert (Hm : d <= m_down th).
+    { unfold m_down, unstarted, setting. rewrite Hpc. rewrite (skipn_cur _ (opi th)), Hop. cbn [map down_amount]. rewrite sumz_cons.
+      assert (0 <= sumz (map down_amount (skipn (S (opi th)) (prog th)))); [|lia].
+      apply sumz_nonneg. intros x Hx. apply in_map_iff in Hx. destruct Hx as [o [<- Ho]]. apply (Hnn th Hin). eapply In_skipn; eauto. }
+    destruct (vset s); [|reflexivity]. assert (count s = 0) by (apply Hiff; reflexivity). lia.
+Qed.
+
+(* ---- wake_all and the boolean measures ---- *)
+Ltac wake_same := let th := fresh "th" in let E := fresh "E" in intro th; unfold wake_thread; destruct (tpc th) eqn:E; proj; rewrite ?E; reflexivity.
+Lemma wake_m_futex : forall th, m_futex (wake_thread th) = m_futex th.
+Proof. unfold m_futex, in_futex. wake_same. Qed.
+Lemma wake_m_setting : forall th, m_setting (wake_thread th) = m_setting th.
+Proof. unfold m_setting, setting. wake_same. Qed.
+Lemma wake_m_pend : forall th, m_pend (wake_thread th) = m_pend th.
+Proof. unfold m_pend, wake_pending. wake_same. Qed.
+Lemma wake_m_post : forall th, m_post (wake_thread th) = m_post th.
+Proof. unfold m_post, post. wake_same. Qed.
+Lemma wake_m_park : forall l, tsum m_park (map wake_thread l) = 0.
+Proof.
+  intro l. apply tsum_zero. intros th Hin. apply in_map_iff in Hin. destruct Hin as [a [<- _]].
+  unfold m_park, parked, wake_thread. destruct (tpc a) eqn:E; proj; rewrite ?E; reflexivity.
+Qed.
+Lemma park_le_post : forall l, tsum m_park l <= tsum m_post l.
+Proof. intro l. apply tsum_le. intros th _. unfold m_park, m_post, parked, post. destruct (tpc th); cbn; lia. Qed.
+Lemma word_eqb_fst : forall a n v, word_eqb (a, n) v = true -> a = fst v.
+Proof. intros a n v H. unfold word_eqb in H. cbn [fst snd] in H. apply andb_prop in H. destruct H as [H _]. apply eqb_prop in H. exact H. Qed.
+
+Ltac unfold_measures :=
+  unfold m_futex, m_setting, m_pend, m_park, m_post, in_futex, setting, wake_pending, parked, post.
+
+Ltac abstract_sums s :=
+  set (S1 := tsum m_futex (threads s)) in *; set (S2 := tsum m_setting (threads s)) in *;
+  set (S3 := tsum m_pend (threads s)) in *; set (S4 := tsum m_park (threads s)) in *;
+  set (S5 := tsum m_post (threads s)) in *; clearbody S1 S2 S3 S4 S5.
+
+Lemma step_arith : forall latch progs s t s', wf latch progs -> Inv latch progs s -> step s t = Some s' ->
+  tsum m_futex (threads s') + b2z (fready s') <= b2z (vset s') /\
+  (vset s' = false -> tsum m_setting (threads s') = 0) /\
+  (0 < tsum m_park (threads s') -> fready s' = false \/ 0 < tsum m_pend (threads s')) /\
+  (fready s' = false -> tsum m_post (threads s') <= fcnt s').
+Proof.
+  intros latch progs s t s' Hwf HI H.
+  pose proof (i_futex _ _ _ HI) as Hfut. pose proof (i_setting _ _ _ HI) as Hset.
+  pose proof (i_park _ _ _ HI) as Hpark. pose proof (i_post _ _ _ HI) as Hpost.
+  pose proof (i_loc _ _ _ HI) as HL.
+  pose proof (tsum_b2z_nonneg in_futex (threads s)) as N1. pose proof (tsum_b2z_nonneg setting (threads s)) as N2.
+  pose proof (tsum_b2z_nonneg wake_pending (threads s)) as N3. pose proof (tsum_b2z_nonneg parked (threads s)) as N4.
+  pose proof (tsum_b2z_nonneg post (threads s)) as N5. pose proof (park_le_post (threads s)) as N6.
+  fold m_futex in N1. fold m_setting in N2. fold m_pend in N3. fold m_park in N4. fold m_post in N5.
+  step_cases H; proj.
+  35: { repeat split; assumption. }
+  all: pose proof (proj1 (Forall_forall _ _) HL _ (nth_error_In _ _ Hth)) as [_ Hp]; unfold pc_loc in Hp; rewrite Hpc in Hp.
+  all: assert (G1 : m_futex th <= tsum m_futex (threads s)) by (apply tsum_ge_in; [intros; apply b2z_range | eapply nth_error_In; exact Hth]).
+  all: assert (G2 : m_setting th <= tsum m_setting (threads s)) by (apply tsum_ge_in; [intros; apply b2z_range | eapply nth_error_In; exact Hth]).
+  all: assert (G3 : m_pend th <= tsum m_pend (threads s)) by (apply tsum_ge_in; [intros; apply b2z_range | eapply nth_error_In; exact Hth]).
+  all: assert (G4 : m_park th <= tsum m_park (threads s)) by (apply tsum_ge_in; [intros; apply b2z_range | eapply nth_error_In; exact Hth]).
+  all: assert (G5 : m_post th <= tsum m_post (threads s)) by (apply tsum_ge_in; [intros; apply b2z_range | eapply nth_error_In; exact Hth]).
+  all: try (pose proof (begin_oset _ _ _ _ _ Hwf HI Hth Hpc Hop) as Boset); try (pose proof (begin_odown _ _ _ _ _ _ Hwf HI Hth Hpc Hop) as Bodown).
+  all: repeat match goal with Hw : word_eqb _ _ = true |- _ => apply word_eqb_fst in Hw end.
+  all: repeat match goal with Hw : wake_needed _ = _ |- _ => unfold wake_needed in Hw end.
+  14: { (* SetWake: wake_all *)
+    assert (Hth' : nth_error (map wake_thread (threads s)) t = Some th)
+      by (apply nth_error_wake; [exact Hth | unfold parked; rewrite Hpc; reflexivity]).
+    rewrite !(tsum_set_nth _ _ _ _ _ Hth'). rewrite wake_m_park.
+    rewrite (tsum_map _ _ wake_m_futex), (tsum_map _ _ wake_m_setting), (tsum_map _ _ wake_m_pend), (tsum_map _ _ wake_m_post).
+    abstract_sums s. revert G1 G2 G3 G4 G5. unfold_measures. proj. rewrite Hpc. cbn [b2z]. lia. }
+  all: rewrite !(tsum_set_nth _ _ _ _ _ Hth).
+  all: abstract_sums s; revert G1 G2 G3 G4 G5; unfold_measures; proj; rewrite Hpc; cbn [b2z].
+  all: try lia.
+  all: destruct (vset s) eqn:Ev; destruct (fready s) eqn:Ef; cbn [b2z] in *; try lia.
+Qed.
+
+Lemma setting_vset : forall latch progs s t th, Inv latch progs s -> nth_error (threads s) t = Some th ->
+  setting th = true -> vset s = true.
+Proof.
+  intros latch progs s t th HI Hth Hs. destruct (vset s) eqn:Ev; [reflexivity|].
+  pose proof (i_setting _ _ _ HI Ev) as H0.
+  assert (G : m_setting th <= tsum m_setting (threads s)) by (apply tsum_ge_in; [intros; apply b2z_range | eapply nth_error_In; exact Hth]).
+  unfold m_setting at 1 in G. rewrite Hs in G. cbn in G. lia.
+Qed.
+
+Lemma step_sealed_early : forall latch progs s t s', Inv latch progs s -> step s t = Some s' ->
+  (vset s' = true <-> hd s' = HSealed) /\ early s' = false.
+Proof.
+  intros latch progs s t s' HI H.
+  pose proof (i_sealed _ _ _ HI) as Hseal. pose proof (i_early _ _ _ HI) as Hearly.
+  pose proof (fun th => setting_vset _ _ _ t th HI) as Hsv.
+  step_cases H; proj.
+  all: repeat match goal with E : hd _ = _ |- _ => rewrite E end.
+  all: try (split; [exact Hseal | exact Hearly]).
+  all: try (split; [split; reflexivity | exact Hearly]).
+  all: try (assert (Hv : vset s = true) by (apply Hseal; reflexivity); split; [exact Hseal | rewrite Hearly, Hv; reflexivity]).
+  - assert (Hv : vset s = true) by (apply (Hsv th eq_refl); unfold setting; rewrite Hpc; reflexivity).
+    split; [exact Hseal | rewrite Hearly, Hv; reflexivity].
+  - split; [|exact Hearly]. split; [intro Hv; apply Hseal in Hv; discriminate Hv | discriminate].
+Qed.
+
+(* ---- plain mode: at most one set_value begins; latch mode: count bookkeeping ---- *)
+Lemma wake_unstarted : forall th, unstarted (wake_thread th) = unstarted th.
+Proof. intro th. unfold wake_thread, unstarted, setting. destruct (tpc th) eqn:E; proj; rewrite ?E; reflexivity. Qed.
+Lemma wake_m_set : forall th, m_set (wake_thread th) = m_set th.
+Proof. intro th. unfold m_set. rewrite wake_unstarted. reflexivity. Qed.
+Lemma wake_m_down : forall th, m_down (wake_thread th) = m_down th.
+Proof. intro th. unfold m_down. rewrite wake_unstarted. reflexivity. Qed.
+
+Lemma sumz_nil : sumz [] = 0.
+Proof. reflexivity. Qed.
+Definition cur_pre (th : thread) : list op := match nth_error (prog th) (opi th) with Some o => [o] | None => [] end.
+Lemma cur_pre_nonneg : forall th, (forall o, In o (prog th) -> 0 <= down_amount o) -> 0 <= sumz (map down_amount (cur_pre th)).
+Proof.
+  intros th H. unfold cur_pre. destruct (nth_error (prog th) (opi th)) as [o|] eqn:E; cbn; [|lia].
+  apply nth_error_In in E. specialize (H o E). lia.
+Qed.
+
+Ltac find_ustep th Hpc :=
+  match goal with |- context [set_nth _ ?th' _] =>
+    first [ assert (Hu : unstarted th = [] ++ unstarted th') by (unfold unstarted, setting; proj; rewrite Hpc; reflexivity)
+          | assert (Hu : unstarted th = cur_pre th ++ unstarted th')
+              by (unfold unstarted, setting, cur_pre; proj; rewrite Hpc; rewrite (skipn_cur _ (opi th));
+                  destruct (nth_error (prog th) (opi th)); reflexivity) ]
+  end.
+
+Lemma step_modes : forall latch progs s t s', wf latch progs -> Inv latch progs s -> step s t = Some s' ->
+  (latch = 0 -> tsum m_set (threads s') + b2z (vset s') <= 1) /\
+  (0 < latch -> tsum m_down (threads s') <= count s' /\ (vset s' = true <-> count s' = 0)).
+Proof.
+  intros latch progs s t s' Hwf HI H.
+  pose proof (i_plain _ _ _ HI) as Hplain. pose proof (i_latch _ _ _ HI) as Hlatch.
+  pose proof (fun Hl => latch_down_nonneg _ _ _ Hwf Hl HI) as Hnn.
+  step_cases H; proj.
+  35: { split; assumption. }
+  all: try (pose proof (begin_oset _ _ _ _ _ Hwf HI Hth Hpc Hop) as Boset); try (pose proof (begin_odown _ _ _ _ _ _ Hwf HI Hth Hpc Hop) as Bodown).
+  all: find_ustep th Hpc.
+  all: destruct (ustep_measures _ _ _ Hu) as [Us Ud].
+  all: assert (Hpre : 0 < latch -> 0 <= sumz (map down_amount (cur_pre th)))
+         by (intro Hl0; apply cur_pre_nonneg; apply (Hnn Hl0); eapply nth_error_In; exact Hth).
+  all: unfold cur_pre in *; rewrite ?Hop in *; cbn [app filter is_set is_down down_amount map length] in Us, Ud, Hpre; rewrite ?sumz_cons, ?sumz_nil in *.
+  14: { assert (Hth' : nth_error (map wake_thread (threads s)) t = Some th)
+      by (apply nth_error_wake; [exact Hth | unfold parked; rewrite Hpc; reflexivity]).
+    rewrite !(tsum_set_nth _ _ _ _ _ Hth'). rewrite (tsum_map _ _ wake_m_set), (tsum_map _ _ wake_m_down).
+    split; intro Hl; [specialize (Hplain Hl)|specialize (Hlatch Hl)]. all: lia. }
+  all: rewrite !(tsum_set_nth _ _ _ _ _ Hth).
+  all: repeat match goal with Hw : latch_fires _ = _ |- _ => unfold latch_fires in Hw end.
+  all: (split; intro Hl; [specialize (Hplain Hl)|specialize (Hlatch Hl); specialize (Hpre Hl)]).
+  all: try (destruct (vset s) eqn:Ev; cbn [b2z] in *; lia).
+Qed.
+
+(* ---- callbacks: every completed on_finish is in exactly one of ran / head list / a setter's detached list ---- *)
+Lemma m_cb_nonneg : forall id l, 0 <= tsum (m_cb id) l.
+Proof. intros. apply tsum_nonneg_in. intros. apply cnt_nonneg. Qed.
+Lemma cbcount_nonneg : forall id s, 0 <= cbcount id s.
+Proof. intros. unfold cbcount. pose proof (cnt_nonneg id (ran s)). pose proof (cnt_nonneg id (hlist s)). pose proof (m_cb_nonneg id (threads s)). lia. Qed.
+
+Lemma cb_keep : forall s s' t th th',
+  nth_error (threads s) t = Some th -> threads s' = set_nth t th' (threads s) -> prog th' = prog th ->
+  (opi th' = opi th \/ (opi th' = S (opi th) /\ nth_error (prog th) (opi th) <> Some OFin)) ->
+  (forall id, cnt id (ran s') + cnt id (hlist s') + m_cb id th' = cnt id (ran s) + cnt id (hlist s) + m_cb id th) ->
+  cb_inv s -> cb_inv s'.
+Proof.
+  intros s s' t th th' Hth Hthr Hprog Hopi Hcnt Hcb id. destruct (Hcb id) as [A [B C]].
+  assert (E : cbcount id s' = cbcount id s).
+  { unfold cbcount. rewrite Hthr, (tsum_set_nth _ _ _ _ _ Hth). specialize (Hcnt id). lia. }
+  rewrite E. split; [exact A|]. split.
+  - intro H1. destruct (B H1) as [th0 [Hth0 Hlt]]. rewrite Hthr. destruct (Nat.eq_dec (fst id) t) as [e|n].
+    + rewrite e in *. rewrite Hth in Hth0. injection Hth0 as <-. exists th'. split; [eapply nth_error_set_nth_eq; eauto | lia].
+    + exists th0. split; [rewrite nth_error_set_nth_neq; assumption | exact Hlt].
+  - intros th0 Hth0 Hlt Hfin. rewrite Hthr in Hth0. destruct (Nat.eq_dec (fst id) t) as [e|n].
+    + rewrite e in *. rewrite (nth_error_set_nth_eq _ _ _ _ _ Hth) in Hth0. injection Hth0 as <-. rewrite Hprog in Hfin.
+      apply (C th Hth); [|exact Hfin]. destruct Hopi as [Ho|[Ho Hnf]]; [lia|].
+      destruct (Nat.eq_dec (snd id) (opi th)) as [e2|n2]; [rewrite e2 in Hfin; contradiction | lia].
+    + rewrite nth_error_set_nth_neq in Hth0 by assumption. apply (C th0); assumption.
+Qed.
+
+Lemma cb_add : forall s s' t th th',
+  nth_error (threads s) t = Some th -> threads s' = set_nth t th' (threads s) -> prog th' = prog th ->
+  opi th' = S (opi th) ->
+  (forall id, cnt id (ran s') + cnt id (hlist s') + m_cb id th' =
+              cnt id (ran s) + cnt id (hlist s) + m_cb id th + (if cb_dec (t, opi th) id then 1 else 0)) ->
+  cb_inv s -> cb_inv s'.
+Proof.
+  intros s s' t th th' Hth Hthr Hprog Hopi Hcnt Hcb id. destruct (Hcb id) as [A [B C]].
+  assert (E : cbcount id s' = cbcount id s + (if cb_dec (t, opi th) id then 1 else 0)).
+  { unfold cbcount. rewrite Hthr, (tsum_set_nth _ _ _ _ _ Hth). specialize (Hcnt id). lia. }
+  rewrite E. pose proof (cbcount_nonneg id s) as Hnn. destruct (cb_dec (t, opi th) id) as [e|n].
+  - subst id. cbn [fst snd] in *.
+    assert (Z0 : cbcount (t, opi th) s = 0).
+    { destruct (Z.eq_dec (cbcount (t, opi th) s) 0) as [z|nz]; [exact z|]. exfalso.
+      destruct B as [th0 [Hth0 Hlt]]; [lia|]. rewrite Hth in Hth0. injection Hth0 as <-. lia. }
+    rewrite Z0. split; [lia|]. split; [|intros; lia].
+    intros _. exists th'. rewrite Hthr. split; [eapply nth_error_set_nth_eq; eauto | lia].
+  - replace (cbcount id s + 0) with (cbcount id s) by lia. split; [exact A|]. split.
+    + intro H1. destruct (B H1) as [th0 [Hth0 Hlt]]. rewrite Hthr. destruct (Nat.eq_dec (fst id) t) as [e|ne].
+      * rewrite e in *. rewrite Hth in Hth0. injection Hth0 as <-. exists th'. split; [eapply nth_error_set_nth_eq; eauto | lia].
+      * exists th0. split; [rewrite nth_error_set_nth_neq; assumption | exact Hlt].
+    + intros th0 Hth0 Hlt Hfin. rewrite Hthr in Hth0. destruct (Nat.eq_dec (fst id) t) as [e|ne].
+      * rewrite e in *. rewrite (nth_error_set_nth_eq _ _ _ _ _ Hth) in Hth0. injection Hth0 as <-. rewrite Hprog in Hfin.
+        apply (C th Hth); [|exact Hfin].
+        destruct (Nat.eq_dec (snd id) (opi th)) as [e2|n2]; [|lia].
+        exfalso. apply n. destruct id as [a b]. cbn [fst snd] in *. congruence.
+      * rewrite nth_error_set_nth_neq in Hth0 by assumption. apply (C th0); assumption.
+Qed.
+
+Lemma wake_m_cb : forall id th, m_cb id (wake_thread th) = m_cb id th.
+Proof. intros id th. unfold m_cb, slist, wake_thread. destruct (tpc th) eqn:E; proj; rewrite ?E; reflexivity. Qed.
+
+Lemma cb_wake : forall s, cb_inv s -> cb_inv (wake_all s).
+Proof.
+  intros s Hcb id. destruct (Hcb id) as [A [B C]].
+  assert (E : cbcount id (wake_all s) = cbcount id s).
+  { unfold cbcount, hlist. proj. rewrite (tsum_map _ _ (wake_m_cb id)). reflexivity. }
+  rewrite E. split; [exact A|]. split.
+  - intro H1. destruct (B H1) as [th0 [Hth0 Hlt]]. exists (wake_thread th0). proj. rewrite nth_error_map, Hth0, wake_opi. split; [reflexivity|exact Hlt].
+  - intros th0 Hth0 Hlt Hfin. proj_in Hth0. rewrite nth_error_map in Hth0.
+    destruct (nth_error (threads s) (fst id)) as [a|] eqn:Ea; [|discriminate]. cbn in Hth0. injection Hth0 as <-.
+    rewrite wake_opi in Hlt. rewrite wake_prog in Hfin. apply (C a); auto.
+Qed.
+
+Ltac cb_counts Hpc :=
+  let id := fresh "id" in
+  intro id; proj; unfold m_cb, slist, hlist; proj; rewrite ?Hpc;
+  repeat match goal with E : hd _ = _ |- _ => rewrite E end;
+  rewrite ?cnt_app, ?cnt_cons, ?cnt_nil; lia.
+
+Lemma step_cb : forall latch progs s t s', Inv latch progs s -> step s t = Some s' -> cb_inv s'.
+Proof.
+  intros latch progs s t s' HI H. pose proof (i_cb _ _ _ HI) as Hcb. pose proof (i_loc _ _ _ HI) as HL.
+  step_cases H.
+  35: { exact Hcb. }
+  all: pose proof (proj1 (Forall_forall _ _) HL _ (nth_error_In _ _ Hth)) as [_ Hp]; unfold pc_loc in Hp; rewrite Hpc in Hp; unfold not_fin in Hp.
+  14: { (* SetWake *)
+    assert (Hth' : nth_error (threads (wake_all s)) t = Some th)
+      by (proj; apply nth_error_wake; [exact Hth | unfold parked; rewrite Hpc; reflexivity]).
+    eapply (cb_keep (wake_all s) _ t th _ Hth'); [reflexivity | reflexivity | left; reflexivity | cb_counts Hpc | apply cb_wake; exact Hcb]. }
+  all: first
+    [ eapply (cb_keep s _ t th _ Hth);
+      [ reflexivity | reflexivity
+      | first [left; reflexivity | right; split; [reflexivity | first [rewrite Hop; discriminate | tauto]]]
+      | cb_counts Hpc | exact Hcb ]
+    | eapply (cb_add s _ t th _ Hth); [reflexivity | reflexivity | reflexivity | cb_counts Hpc | exact Hcb ] ].
+Qed.
+
+(* ======================================================================================== *)
+(* The invariant holds in every reachable state                                             *)
+(* ======================================================================================== *)
+Lemma inv_step : forall latch progs, wf latch progs ->
+  forall s t s', Inv latch progs s -> step s t = Some s' -> Inv latch progs s'.
+Proof.
+  intros latch progs Hwf s t s' HI H.
+  destruct (step_arith _ _ _ _ _ Hwf HI H) as [A1 [A2 [A3 A4]]].
+  destruct (step_sealed_early _ _ _ _ _ HI H) as [B1 B2].
+  destruct (step_modes _ _ _ _ _ Hwf HI H) as [C1 C2].
+  constructor; try assumption.
+  - rewrite (step_progs _ _ _ H). apply (i_progs _ _ _ HI).
+  - eapply step_loc; eauto.
+  - eapply step_cb; eauto.
+Qed.
+
+Lemma inv_reach : forall latch progs s, wf latch progs -> Reach latch progs s -> Inv latch progs s.
+Proof.
+  intros latch progs s Hwf HR. unfold Reach in HR. revert s HR.
+  apply inv_reachable; [apply inv_init; exact Hwf | apply inv_step; exact Hwf].
+Qed.
+
+(* ======================================================================================== *)
+(* The theorems of Properties_C08.v                                                         *)
+(* ======================================================================================== *)
+Lemma fu_ran_nodup : forall latch progs s, wf latch progs -> Reach latch progs s -> NoDup (ran s).
+Proof.
+  intros latch progs s Hwf HR. pose proof (i_cb _ _ _ (inv_reach _ _ _ Hwf HR)) as Hcb.
+  apply cnt_nodup. intro id. destruct (Hcb id) as [A _]. unfold cbcount in A.
+  pose proof (cnt_nonneg id (hlist s)). pose proof (m_cb_nonneg id (threads s)). lia.
+Qed.
+
+Lemma fu_not_early : forall latch progs s, wf latch progs -> Reach latch progs s -> early s = false.
+Proof. intros latch progs s Hwf HR. apply (i_early _ _ _ (inv_reach _ _ _ Hwf HR)). Qed.
+
+Lemma fu_finished_callbacks_ran : forall latch progs s, wf latch progs -> Reach latch progs s ->
+  hd s = HSealed -> (forall th, In th (threads s) -> setting th = false) ->
+  forall t th i, nth_error (threads s) t = Some th -> nth_error (prog th) i = Some OFin -> (i < opi th)%nat ->
+  In (t, i) (ran s).
+Proof.
+  intros latch progs s Hwf HR Hhd Hns t th i Hth Hfin Hlt.
+  pose proof (i_cb _ _ _ (inv_reach _ _ _ Hwf HR)) as Hcb. destruct (Hcb (t, i)) as [_ [_ C]].
+  specialize (C th Hth Hlt Hfin). unfold cbcount, hlist in C. rewrite Hhd, cnt_nil in C.
+  rewrite tsum_zero in C.
+  - apply cnt_in. lia.
+  - intros th0 Hin. specialize (Hns th0 Hin). unfold m_cb, slist. unfold setting in Hns. destruct (tpc th0); try discriminate; apply cnt_nil.
+Qed.
+
+Lemma results_ok : forall latch progs s th r, wf latch progs -> Reach latch progs s ->
+  In th (threads s) -> In r (results th) -> res_ok r.
+Proof.
+  intros latch progs s th r Hwf HR Hin Hr. pose proof (i_loc _ _ _ (inv_reach _ _ _ Hwf HR)) as HL.
+  rewrite Forall_forall in HL. destruct (HL th Hin) as [Hres _]. rewrite Forall_forall in Hres. apply Hres. exact Hr.
+Qed.
+
+Lemma fu_get_sees_value : forall latch progs s th b, wf latch progs -> Reach latch progs s ->
+  In th (threads s) -> In (RGet b) (results th) -> b = true.
+Proof. intros latch progs s th b Hwf HR Hin Hr. apply (results_ok _ _ _ _ _ Hwf HR Hin Hr). Qed.
+
+Lemma fu_wait_true_ready : forall latch progs s th tmo a b rdy, wf latch progs -> Reach latch progs s ->
+  In th (threads s) -> In (RWait true tmo a b rdy) (results th) -> rdy = true.
+Proof. intros latch progs s th tmo a b rdy Hwf HR Hin Hr. apply (results_ok _ _ _ _ _ Hwf HR Hin Hr). Qed.
+
+Lemma fu_wait_false_elapsed : forall latch progs s th tmo a b rdy, wf latch progs -> Reach latch progs s ->
+  In th (threads s) -> In (RWait false tmo a b rdy) (results th) -> tmo <= b - a.
+Proof. intros latch progs s th tmo a b rdy Hwf HR Hin Hr. apply (results_ok _ _ _ _ _ Hwf HR Hin Hr). Qed.
+
+Lemma step_fready_mono : forall s t s', step s t = Some s' -> fready s = true -> fready s' = true.
+Proof. intros s t s' H Hf. step_cases H; proj; first [reflexivity | assumption | congruence]. Qed.
+
+Lemma fu_ready_stable : forall latch progs s sch, wf latch progs -> Reach latch progs s ->
+  fready s = true -> fready (run st step s sch) = true /\ hd (run st step s sch) = HSealed.
+Proof.
+  intros latch progs s sch Hwf HR Hf.
+  assert (Hf' : fready (run st step s sch) = true).
+  { revert Hf. apply (inv_run st step (fun x => fready x = true)). intros x t x' Hx Hs. eapply step_fready_mono; eauto. }
+  split; [exact Hf'|].
+  assert (HR' : Reach latch progs (run st step s sch)).
+  { destruct HR as [sch0 <-]. exists (sch0 ++ sch). apply run_app. }
+  pose proof (inv_reach _ _ _ Hwf HR') as HI. apply (i_sealed _ _ _ HI). eapply fready_vset; eauto.
+Qed.
+
+Lemma fu_no_lost_wakeup : forall latch progs s, wf latch progs -> Reach latch progs s ->
+  fready s = true -> (forall th, In th (threads s) -> wake_pending th = false) ->
+  forall th, In th (threads s) -> parked th = false.
+Proof.
+  intros latch progs s Hwf HR Hf Hnp th Hin. pose proof (i_park _ _ _ (inv_reach _ _ _ Hwf HR)) as Hp.
+  assert (Z3 : tsum m_pend (threads s) = 0).
+  { apply tsum_zero. intros th0 Hin0. unfold m_pend. rewrite (Hnp th0 Hin0). reflexivity. }
+  assert (G : m_park th <= tsum m_park (threads s)) by (apply tsum_ge_in; [intros; apply b2z_range | exact Hin]).
+  destruct (parked th) eqn:E; [|reflexivity]. unfold m_park in G at 1. rewrite E in G. cbn [b2z] in G.
+  destruct Hp as [Hp|Hp]; [lia | congruence | lia].
+Qed.
+
+Lemma fu_latch_iff : forall latch progs s, wf latch progs -> 0 < latch -> Reach latch progs s ->
+  (vset s = true <-> count s = 0).
+Proof. intros latch progs s Hwf Hl HR. apply (i_latch _ _ _ (inv_reach _ _ _ Hwf HR) Hl). Qed.
